@@ -453,4 +453,132 @@ example : (run cfg1 init (demoGraceful.take 8)).map (fun s => decide (s.acc.phas
 example : (run cfg1 init (demoGraceful.take 12)).map (fun s => decide (s.acc.phase = .waiting ∧
     (s.c 0).phase = .inflight ∧ (s.c 1).phase = .queued ∧ (s.w 0).phase = .running)) = some true := by decide
 
+/-! ### 6. Worker-side progress: a worker that has been told to shut down can always finish -/
+
+theorem drain_all (cfg : Cfg) (w : Nat) : ∀ (q : List Nat) (s : State), (s.w w).phase = .draining → (s.w w).queue = q →
+    ∃ es s', run cfg s es = some s' ∧ (s'.w w).phase = .drained := by
+  intro q
+  induction q with
+  | nil =>
+    intro s hp hq
+    exact ⟨[.wDrainEnd w], _, by simp [run, step, hp, hq]; rfl, by simp⟩
+  | cons c rest ih =>
+    intro s hp hq
+    have h1 : step cfg s (.wDrain w c) = some (startConn s w c rest) := by simp [step, hq, hp]
+    obtain ⟨es, s', g1, g2⟩ := ih (startConn s w c rest) (by simp [startConn, hp]) (by simp [startConn])
+    exact ⟨.wDrain w c :: es, s', by simpa [run, h1] using g1, g2⟩
+
+theorem poll_all (cfg : Cfg) (w : Nat) : ∀ (l : List Nat) (s : State), (s.w w).phase = .drained →
+    (s.w w).signalled = false → (∀ c, c ∈ l → (s.c c).worker = w) →
+    ∃ es s', run cfg s es = some s' ∧ s'.w = s.w ∧
+      (∀ c, (s.c c).phase ≠ .spawned → (s'.c c).phase ≠ .spawned) ∧ (∀ c, c ∈ l → (s'.c c).phase ≠ .spawned) := by
+  intro l
+  induction l with
+  | nil => intro s _ _ _; exact ⟨[], s, rfl, rfl, fun _ h => h, fun _ h => by cases h⟩
+  | cons c l ih =>
+    intro s hp hs hw
+    by_cases hc : (s.c c).phase = .spawned
+    · have hwc := hw c (by simp)
+      have h1 : step cfg s (.cPoll c) = some (s.setC c { s.c c with phase := .idle }) := by
+        simp [step, hc, workerAlive, hwc, hp, hs]
+      obtain ⟨es, s', g1, g2, g3, g4⟩ := ih (s.setC c { s.c c with phase := .idle }) (by simpa using hp)
+        (by simpa using hs) (fun c' hc' => by
+          simp only [setC_c]; split
+          · rename_i h; subst h; exact hwc
+          · exact hw c' (by simp [hc']))
+      refine ⟨.cPoll c :: es, s', by simpa [run, h1] using g1, by simpa using g2, fun c' h' => ?_, fun c' hc' => ?_⟩
+      · apply g3; simp only [setC_c]; split <;> simp_all
+      · cases hc' with
+        | head => apply g3; simp
+        | tail _ hm => exact g4 c' hm
+    · obtain ⟨es, s', g1, g2, g3, g4⟩ := ih s hp hs (fun c' hc' => hw c' (by simp [hc']))
+      refine ⟨es, s', g1, g2, g3, fun c' hc' => ?_⟩
+      cases hc' with
+      | head => exact g3 c hc
+      | tail _ hm => exact g4 c' hm
+
+/-- **C16 (6) worker_can_always_finish** ("no blocking state" on the worker side). In every reachable state,
+    a worker that has a shutdown command in its inbox, or is anywhere past taking one, has a continuation made
+    only of its own steps, first polls of connection tasks it has spawned, and (Graceful) its own timer, after
+    which it has notified the acceptor and exited: the drain loop always terminates (nothing can be enqueued
+    behind a closed inbox), the yield lets every spawned task be polled, and the wait is bounded by the
+    timeout. Under weak fairness of the worker thread this is: every worker eventually notifies. -/
+theorem worker_can_always_finish (cfg : Cfg) (s : State) (h : Reachable cfg s) (w : Nat) (hw : w < cfg.n)
+    (hp : (s.w w).phase ≠ .running ∨ (s.w w).cmds ≠ []) :
+    ∃ es s', run cfg s es = some s' ∧ (s'.w w).phase = .exited ∧ (s'.w w).notified = true := by
+  -- each stage, for an arbitrary state satisfying the invariants
+  have fromFinishing : ∀ t : State, (t.w w).phase = .finishing →
+      ∃ es s', run cfg t es = some s' ∧ (s'.w w).phase = .exited ∧ (s'.w w).notified = true := by
+    intro t ht
+    exact ⟨[.wNotify w], _, by simp [run, step, ht]; rfl, by simp, by simp⟩
+  have chain : ∀ (t : State) (es : List Event) (t' : State), run cfg t es = some t' →
+      (∃ es' s', run cfg t' es' = some s' ∧ (s'.w w).phase = .exited ∧ (s'.w w).notified = true) →
+      ∃ es' s', run cfg t es' = some s' ∧ (s'.w w).phase = .exited ∧ (s'.w w).notified = true := by
+    intro t es t' hr ⟨es', s', g1, g2, g3⟩
+    exact ⟨es ++ es', s', run_append_of hr g1, g2, g3⟩
+  have fromWaiting : ∀ t : State, (t.w w).phase = .waiting →
+      ∃ es s', run cfg t es = some s' ∧ (s'.w w).phase = .exited ∧ (s'.w w).notified = true := by
+    intro t ht
+    have h1 : ∃ t', run cfg t [.wWaitEnd w .timeout] = some t' ∧ (t'.w w).phase = .finishing := by
+      simp [run, step, ht]
+    obtain ⟨t', g1, g2⟩ := h1
+    exact chain t _ t' g1 (fromFinishing t' g2)
+  have fromDrained : ∀ t : State, Inv cfg t → (t.w w).phase = .drained →
+      ∃ es s', run cfg t es = some s' ∧ (s'.w w).phase = .exited ∧ (s'.w w).notified = true := by
+    intro t hi ht
+    have hsig : (t.w w).signalled = false := by
+      cases hsg : (t.w w).signalled
+      · rfl
+      · have := (hi.wflags w).1 hsg; simp [ht] at this
+    obtain ⟨es, t', g1, g2, _, g4⟩ := poll_all cfg w (t.w w).started t ht hsig
+      (fun c hc => (hi.links.2.2.2 w c hc).1)
+    have h1 : ∃ t'', run cfg t' [.wSignal w] = some t'' ∧ (t''.w w).phase = .waiting := by
+      have : allPhase t' (fun p => p != .spawned) (t.w w).started = true := by
+        rw [allPhase_iff]; intro c hc; simpa using g4 c hc
+      simp [run, step, g2, ht, this]
+    obtain ⟨t'', g5, g6⟩ := h1
+    exact chain t _ t' g1 (chain t' _ t'' g5 (fromWaiting t'' g6))
+  have fromDraining : ∀ t : State, Inv cfg t → (t.w w).phase = .draining →
+      ∃ es s', run cfg t es = some s' ∧ (s'.w w).phase = .exited ∧ (s'.w w).notified = true := by
+    intro t hi ht
+    obtain ⟨es, t', g1, g2⟩ := drain_all cfg w (t.w w).queue t ht rfl
+    exact chain t _ t' g1 (fromDrained t' (inv_run hi g1) g2)
+  have fromClosing : ∀ t : State, Inv cfg t → (t.w w).phase = .closing →
+      ∃ es s', run cfg t es = some s' ∧ (s'.w w).phase = .exited ∧ (s'.w w).notified = true := by
+    intro t hi ht
+    have h1 : ∃ t', run cfg t [.wClose w] = some t' ∧ (t'.w w).phase = .draining := by
+      simp [run, step, ht]
+    obtain ⟨t', g1, g2⟩ := h1
+    exact chain t _ t' g1 (fromDraining t' (inv_run hi g1) g2)
+  have hi := inv_reachable h
+  cases hph : (s.w w).phase with
+  | running =>
+    have hc : (s.w w).cmds ≠ [] := by
+      rcases hp with hp | hp
+      · exact absurd hph hp
+      · exact hp
+    cases hcm : (s.w w).cmds with
+    | nil => exact absurd hcm hc
+    | cons m rest =>
+      cases m with
+      | graceful =>
+        have h1 : ∃ t', run cfg s [.wShutdown w .graceful] = some t' ∧ (t'.w w).phase = .closing := by
+          simp [run, step, hcm, hw, hph]
+        obtain ⟨t', g1, g2⟩ := h1
+        exact chain s _ t' g1 (fromClosing t' (inv_run hi g1) g2)
+      | forced =>
+        have h1 : ∃ t', run cfg s [.wShutdown w .forced] = some t' ∧ (t'.w w).phase = .finishing := by
+          simp [run, step, hcm, hw, hph]
+        obtain ⟨t', g1, g2⟩ := h1
+        exact chain s _ t' g1 (fromFinishing t' g2)
+  | closing => exact fromClosing s hi hph
+  | draining => exact fromDraining s hi hph
+  | drained => exact fromDrained s hi hph
+  | waiting => exact fromWaiting s hph
+  | finishing => exact fromFinishing s hph
+  | exited => exact ⟨[], s, rfl, hph, ((hi.wflags w).2.2.1).2 hph⟩
+
+example : (run cfg1 init (demoGraceful.take 13)).map (fun s => decide ((s.w 0).phase = .running ∧
+    (s.w 0).cmds = [.graceful] ∧ (s.w 0).queue = [1])) = some true := by decide
+
 end Pxv.Server
